@@ -5,50 +5,62 @@ from common import Config, Job
 COST = {}
 
 
-def shards(cfg, workload, world, n, ops, seed, extra=(), timeout=600):
+def shards(cfg, workload, world, n, ops, seed, extra=(), timeout=600, env_extra=None, nshards_arg=False):
     jobs = []
     for s in range(n):
         argv = [workload, f"seed={seed}", f"shard={s}", f"ops={ops}", f"world={world}"] + list(extra)
+        if nshards_arg:
+            argv.append(f"nshards={n}")
         if cfg.tool.startswith("miri"):
             argv.append("small=1")
-        jobs.append(Job(cfg, argv, timeout=timeout))
+        jobs.append(Job(cfg, argv, timeout=timeout, env_extra=env_extra))
     return jobs
 
 
-def history_plan(workload, tier, seed, features=(), native_ops=6000, miri_ops=70, asan_ops=6000, worlds=("main", "small"), tools=None):
+MIRI_NOLEAK = {"MIRIFLAGS": "-Zmiri-ignore-leaks"}
+ASAN_NOLEAK = {"ASAN_OPTIONS": "detect_leaks=0:halt_on_error=1:abort_on_error=0:exitcode=98"}
+
+
+def history_plan(workload, tier, seed, features=(), native_ops=6000, miri_ops=70, asan_ops=5000, worlds=("main", "small"), tools=None, scale=1.0, leaks=True, extra=()):
     """Standard tool matrix for one history workload."""
     dbg, rel = Config("dbg", features), Config("rel", features)
     mdbg, mrel, asan, vg = Config("miri-dbg", features), Config("miri-rel", features), Config("asan", features), Config("vg", features)
+    menv = None if leaks else MIRI_NOLEAK
+    aenv = None if leaks else ASAN_NOLEAK
     jobs = []
+    native_ops, miri_ops, asan_ops = int(native_ops * scale), max(20, int(miri_ops * scale)), int(asan_ops * scale)
     if tier == "quick":
         for world in worlds:
             n = 8 if world == "main" else 4
-            jobs += shards(dbg, workload, world, n, native_ops, seed)
-            jobs += shards(rel, workload, world, n, native_ops * 2, seed + 1000)
-        jobs += shards(mdbg, workload, "main", 6, miri_ops, seed + 2000, timeout=900)
-        jobs += shards(mrel, workload, "main", 6, miri_ops, seed + 3000, timeout=900)
-        jobs += shards(mdbg, workload, "small", 2, miri_ops * 2, seed + 2500, timeout=900)
-        jobs += shards(mrel, workload, "small", 2, miri_ops * 2, seed + 3500, timeout=900)
-        jobs += shards(asan, workload, "main", 8, asan_ops, seed + 4000)
+            jobs += shards(dbg, workload, world, n, native_ops, seed, extra)
+            jobs += shards(rel, workload, world, n, native_ops * 2, seed + 1000, extra)
+        jobs += shards(mdbg, workload, "main", 6, miri_ops, seed + 2000, extra, timeout=900, env_extra=menv)
+        jobs += shards(mrel, workload, "main", 6, miri_ops, seed + 3000, extra, timeout=900, env_extra=menv)
+        if "small" in worlds:
+            jobs += shards(mdbg, workload, "small", 2, miri_ops * 2, seed + 2500, extra, timeout=900, env_extra=menv)
+            jobs += shards(mrel, workload, "small", 2, miri_ops * 2, seed + 3500, extra, timeout=900, env_extra=menv)
+        jobs += shards(asan, workload, "main", 8, asan_ops, seed + 4000, extra, env_extra=aenv)
     else:
         for world in worlds:
             n = 16 if world == "main" else 8
-            jobs += shards(dbg, workload, world, n, native_ops * 8, seed, timeout=3000)
-            jobs += shards(rel, workload, world, n, native_ops * 16, seed + 1000, timeout=3000)
-        jobs += shards(mdbg, workload, "main", 24, miri_ops * 3, seed + 2000, timeout=3000)
-        jobs += shards(mrel, workload, "main", 24, miri_ops * 3, seed + 3000, timeout=3000)
-        jobs += shards(mdbg, workload, "small", 8, miri_ops * 6, seed + 2500, timeout=3000)
-        jobs += shards(mrel, workload, "small", 8, miri_ops * 6, seed + 3500, timeout=3000)
-        jobs += shards(asan, workload, "main", 16, asan_ops * 8, seed + 4000, timeout=3000)
-        jobs += shards(asan, workload, "small", 8, asan_ops * 8, seed + 4500, timeout=3000)
-        jobs += shards(vg, workload, "main", 8, native_ops // 2, seed + 5000, timeout=3000)
+            jobs += shards(dbg, workload, world, n, native_ops * 8, seed, extra, timeout=3000)
+            jobs += shards(rel, workload, world, n, native_ops * 16, seed + 1000, extra, timeout=3000)
+        jobs += shards(mdbg, workload, "main", 24, miri_ops * 3, seed + 2000, extra, timeout=3000, env_extra=menv)
+        jobs += shards(mrel, workload, "main", 24, miri_ops * 3, seed + 3000, extra, timeout=3000, env_extra=menv)
+        if "small" in worlds:
+            jobs += shards(mdbg, workload, "small", 8, miri_ops * 6, seed + 2500, extra, timeout=3000, env_extra=menv)
+            jobs += shards(mrel, workload, "small", 8, miri_ops * 6, seed + 3500, extra, timeout=3000, env_extra=menv)
+        jobs += shards(asan, workload, "main", 16, asan_ops * 8, seed + 4000, extra, timeout=3000, env_extra=aenv)
+        if "small" in worlds:
+            jobs += shards(asan, workload, "small", 8, asan_ops * 8, seed + 4500, extra, timeout=3000, env_extra=aenv)
+        jobs += shards(vg, workload, "main", 8, native_ops // 2, seed + 5000, extra, timeout=3000, env_extra=None)
     if tools:
         jobs = [j for j in jobs if j.cfg.tool in tools]
     return jobs
 
 
 class Prop:
-    def __init__(self, pid, level, plan, accept, floors, rule, nontrivial_key, assumptions, design_ref):
+    def __init__(self, pid, level, plan, accept, floors, rule, nontrivial_key, assumptions, design_ref, distinct_merge="max"):
         self.pid = pid
         self.level = level
         self.plan = plan  # fn(tier, seed) -> [Job]
@@ -58,6 +70,7 @@ class Prop:
         self.nontrivial_key = nontrivial_key  # distinct-category used for distinct_nontrivial
         self.assumptions = assumptions
         self.design_ref = design_ref
+        self.distinct_merge = distinct_merge  # max: lower bound of the union; sum: exact when processes enumerate disjoint cases
 
 
 COMMON_ASSUME = [
@@ -84,3 +97,200 @@ reg(Prop(
     assumptions=COMMON_ASSUME,
     design_ref="DESIGN.md section 4, C01",
 ))
+
+
+HIST = "seeded random histories on two worlds (7 archetypes incl. ZST-with-Drop, heap-owning, over-aligned and 16-column shapes with non-contiguous ids; 2 archetypes), boundary-biased initial capacities, phases that grow, shrink, drain and recycle single positions; "
+STATES = "distinct_nontrivial = distinct abstract storage states (len, capacity, free-list head, slot index array) seen by the invariant walker in the largest single process (a lower bound of the union over processes)"
+
+reg(Prop(
+    "C02", "exploration",
+    lambda tier, seed: history_plan("values", tier, seed),
+    accept=["C02"],
+    floors={"rows_compared": 100000, **{f"op.write.{n}": 20 for n in [
+        "view.field", "view.component_mut", "World::view.component_mut", "borrow.component_mut", "World::borrow.component_mut",
+        "ecs_find!(&mut)", "ecs_find_borrow!(&mut)", "resolve+get_slice_mut", "resolve+borrow_slice_mut", "resolve+get_all_slices_mut",
+        "iter_mut", "ecs_iter!(&mut)", "ecs_iter_borrow!(&mut)", "ecs_iter_destroy!(&mut, Continue)"]},
+        "read.destroy-return": 100, "pass.items": 10000},
+    rule=HIST + "write-heavy mix: each write goes through one of 14 mutable access paths with one of the 4 key kinds and is then read back through every read path (11 row-returning lookups x 4 key kinds immediately; 8 per-archetype iteration paths and 6 cross-archetype queries x 3 macros periodically; the tuple returned by destroy); every cell carries a unique token so a swapped, stale or foreign cell is attributed. evaluations = history steps; " + STATES,
+    nontrivial_key="storage_states", assumptions=COMMON_ASSUME, design_ref="DESIGN.md section 4, C02"))
+
+reg(Prop(
+    "C03", "exploration",
+    lambda tier, seed: history_plan("forge", tier, seed, native_ops=2500, miri_ops=50, asan_ops=2500)
+    + (shards(Config("vg"), "forge", "main", 8, 1500, seed + 5000, timeout=3000) if tier == "thorough" else []),
+    accept=["C03"],
+    floors={"forge.foreign_direct_minted": 200, "forge|free-slot-current-generation|absent": 1000, "forge|position==capacity|absent": 100,
+            "forge|direct-index==len-current-version|absent": 100, "forge|undeclared-archetype-id|panic": 50, "forge|empty-archetype|absent": 100,
+            "forge|bit-identical-to-live|accepted": 1000, "forge|uniform-random|absent": 1000},
+    rule="churn history with, at every step, a batch of forged handles from boundary classes computed from the live state via hook H1 (free slot with its current generation, position == capacity / capacity+1 / 2^24-1, live slot with wrong generation, undeclared and foreign archetype id bytes, unchecked typed conversions between archetypes, empty archetypes, bit-identical copies, uniform random 64-bit values, direct handles minted in a second world with index == len / len+1 / capacity at the current archetype version) pushed through all 15 lookup paths and destroy at world and archetype level; accept only if bit-identical to a live handle and then the same entity; Miri/ASan/signals judge memory safety, in release profiles where the unchecked fast paths are live. distinct_nontrivial = distinct (class, API, key kind, outcome) combinations observed in the largest single process",
+    nontrivial_key="forge_class_api_outcome", assumptions=COMMON_ASSUME + ["typed handles made by from_any_unchecked with a foreign id byte are compared by position+generation only in builds without debug assertions (documented by the crate as a logic error that stays memory-safe); such acceptances are counted, not flagged"],
+    design_ref="DESIGN.md section 4, C03"))
+
+reg(Prop(
+    "C04", "exploration",
+    lambda tier, seed: history_plan("drops", tier, seed),
+    accept=["C04"],
+    floors={"registry.drops_seen": 50000, "within_capacity_refused": 50, "drop_world.populated": 50, "clones_made": 50, "registry.zst_dropped": 500, "iter_destroy.destroyed": 200},
+    rule=HIST + "every component value carries a unique token registered at creation; Drop/Clone impls report to a registry that flags drop of a non-live token, clone of a dropped token, tokens alive without an owner (leak) and tokens of live entities dropped; zero-sized Drop types are counted per type; worlds are cloned and dropped at arbitrary points; Miri's leak check, LeakSanitizer (and memcheck in the thorough tier) run with the allocator monitor in pass-through. evaluations = history steps; " + STATES,
+    nontrivial_key="storage_states", assumptions=COMMON_ASSUME, design_ref="DESIGN.md section 4, C04"))
+
+reg(Prop(
+    "C06", "exploration",
+    lambda tier, seed: history_plan("iter", tier, seed, scale=0.6),
+    accept=["C06"],
+    floors={"pass.items": 50000, "query.items": 50000, "iter.state.empty": 100, "iter.state.full": 20, "op.break.ecs_iter!": 20, "op.break.ecs_iter_borrow!": 20, "op.break.ecs_iter_destroy!": 20},
+    rule=HIST + "after every step all 8 per-archetype iteration paths and 6 cross-archetype queries x 3 macros are run; each pass must yield exactly the model's live set (no omission, duplicate or stranger), each handle paired with its own cells; Break is returned at a chosen call k (first, last, random) and the closure must have run exactly k+1 times across all archetypes. distinct_nontrivial = distinct (query, macro, k, total) Break positions in the largest single process",
+    nontrivial_key="break_positions", assumptions=COMMON_ASSUME, design_ref="DESIGN.md section 4, C06"))
+
+
+def plan_c07(tier, seed):
+    jobs = history_plan("iterdestroy", tier, seed, scale=0.6)
+    nmax = 6 if tier == "quick" else 8
+    n = 8 if tier == "quick" else 16
+    for cfg, k in ((Config("dbg"), nmax), (Config("rel"), nmax), (Config("asan"), nmax - 1)):
+        jobs += shards(cfg, "iterdestroy-exhaustive", "small", n, 0, seed, extra=[f"nmax={k}"], nshards_arg=True, timeout=3000)
+    for cfg in (Config("miri-dbg"), Config("miri-rel")):
+        jobs += shards(cfg, "iterdestroy-exhaustive", "small", 4 if tier == "quick" else 16, 0, seed, extra=[f"nmax={2 if tier == 'quick' else 3}"], nshards_arg=True, timeout=3000)
+    return jobs
+
+
+reg(Prop(
+    "C07", "exploration", plan_c07,
+    accept=["C07"],
+    floors={"exhaustive.loops": 30000, "iter_destroy.visits": 50000, "direct_source|ecs_iter_destroy!": 1000, "iter_destroy.broke": 1000},
+    rule="(a) exhaustive: every decision function (4^n assignments of Continue/ContinueDestroy/Break/BreakDestroy, keyed by entity, not by visiting order) for every population (n1, n2), n1+n2 <= 6 (quick) / 8 (thorough) of the two-archetype world from three prior histories (exact capacity, after churn, grown from 0), each on a fresh clone, followed by the full probe suite; (b) random: ecs_iter_destroy! over 6 cross-archetype queries and per-archetype typed loops embedded in churn histories. Oracle: visited set == matched live set unless a Break, nothing after a Break, exactly the flagged destroyed, survivors unchanged, direct handles handed to the closure judged by C09's rule. distinct_nontrivial = number of (history shape, n1, n2, decision function) cases enumerated (exact: processes enumerate disjoint cases)",
+    nontrivial_key="exhaustive_cases", assumptions=COMMON_ASSUME, design_ref="DESIGN.md section 4, C07", distinct_merge="sum"))
+
+
+def plan_c08(tier, seed):
+    jobs = history_plan("churn", tier, seed, scale=0.5, tools=("dbg", "rel", "asan"))
+    k = 1 if tier == "quick" else 6
+    for world in ("main", "small"):
+        jobs += shards(Config("dbg"), "overflow", world, 4, 3000 * k, seed + 10, timeout=3000)
+        jobs += shards(Config("rel"), "overflow", world, 4, 6000 * k, seed + 11, timeout=3000)
+        jobs += shards(Config("dbg", ["wrapping_version"]), "overflow", world, 2, 3000 * k, seed + 12, timeout=3000)
+        jobs += shards(Config("rel", ["wrapping_version"]), "overflow", world, 2, 6000 * k, seed + 13, timeout=3000)
+    jobs += shards(Config("miri-dbg"), "overflow", "main", 4 * k, 60, seed + 14, timeout=3000)
+    jobs += shards(Config("miri-rel"), "overflow", "small", 4 * k, 90, seed + 15, timeout=3000)
+    jobs += shards(Config("asan"), "overflow", "main", 4, 3000 * k, seed + 16, timeout=3000)
+    if tier == "thorough":
+        jobs.append(Job(Config("rel"), ["realoverflow"], timeout=3000))
+        jobs.append(Job(Config("rel", ["wrapping_version"]), ["realoverflow"], timeout=3000))
+    return jobs
+
+
+reg(Prop(
+    "C08", "exploration", plan_c08,
+    accept=["C08"],
+    floors={"handles_issued": 100000, "overflow.panic.arch": 100, "overflow.scenarios": 100, "max_generation_seen": 4294967295},
+    rule="every handle returned by any create path is checked against the set of all handles ever issued in its world (all archetypes together) in churn histories with hot-slot recycling; near 2^32 the hook H2 presets empty archetypes to reachable counter combinations (one position and the archetype at u32::MAX-j; two positions around 2^31; many small counters summing to u32::MAX-j) and ordinary churn, ecs_iter_destroy! and clone cross the boundary: default configuration => the overflowing destroy must panic ('version overflow') and never reissue; wrapping_version => no panic, a reissue is tolerated only after >= 2^32-1 releases of the position. Thorough adds a hook-free run of 2^32-2 real create/destroy cycles. distinct_nontrivial = distinct (archetype, preset shape, distance j, capacity) overflow scenarios in the largest single process",
+    nontrivial_key="overflow_scenarios", assumptions=COMMON_ASSUME + ["H2 only presets counter combinations satisfying archetype_version - 1 == sum(slot_version - 1), i.e. states a real history reaches"],
+    design_ref="DESIGN.md section 4, C08"))
+
+reg(Prop(
+    "C09", "exploration",
+    lambda tier, seed: history_plan("direct", tier, seed),
+    accept=["C09"],
+    floors={"direct|no-removal|no-creation|accepted": 10000, "direct|removal-since|creation-since|rejected": 10000, "direct|no-removal|creation-since|accepted": 1000,
+            "direct_source|ecs_iter_destroy!": 50, "direct_source|World::to_direct": 100, "direct_source|ecs_find!(wild params)": 100, "direct_source|ecs_iter_borrow!(Entity<A>)": 20},
+    rule=HIST + "direct handles are harvested at every step from to_direct (4 key kinds, world and archetype level) and from EntityDirect<A> / EntityDirect<_> / EntityDirectAny closure parameters of all five query macros, stamped with the archetype's removal/creation counters, and re-probed later through every lookup path and destroy as typed and dynamic direct keys: removal since issue => must be rejected; no structural change => must be accepted and designate the entity it was issued for; creations only => either, but if accepted the same entity. evaluations = history steps; " + STATES,
+    nontrivial_key="storage_states", assumptions=COMMON_ASSUME, design_ref="DESIGN.md section 4, C09"))
+
+
+def plan_c10(tier, seed):
+    jobs = history_plan("faults", tier, seed, leaks=False, scale=0.7)
+    k = 1 if tier == "quick" else 6
+    jobs += shards(Config("dbg"), "overflow", "main", 4, 2500 * k, seed + 20, timeout=3000)
+    jobs += shards(Config("rel"), "overflow", "small", 4, 5000 * k, seed + 21, timeout=3000)
+    jobs += shards(Config("miri-rel"), "overflow", "main", 3 * k, 60, seed + 22, timeout=3000, env_extra=MIRI_NOLEAK)
+    jobs += shards(Config("asan"), "overflow", "main", 4, 2500 * k, seed + 23, timeout=3000, env_extra=ASAN_NOLEAK)
+    for mode in (0, 2):
+        jobs.append(Job(Config("rel"), ["bigcap", f"mode={mode}"], timeout=1200))
+    jobs.append(Job(Config("dbg"), ["bigcap", "mode=1"], timeout=1200))
+    if tier == "thorough":
+        jobs.append(Job(Config("rel"), ["realoverflow"], timeout=3000))
+        jobs.append(Job(Config("asan"), ["bigcap", "mode=2"], timeout=3000, env_extra=ASAN_NOLEAK))
+    return jobs
+
+
+reg(Prop(
+    "C10", "fault_enumeration", plan_c10,
+    accept=["C10", "ANY"],
+    floors={"faults_survived": 1000, "fault.fired.find-closure": 20, "fault.fired.write-closure": 20, "fault.fired.iter-closure": 5, "fault.fired.query-closure": 10,
+            "fault.fired.clone": 20, "fault.fired.world-drop": 20, "fault.fired.dynamic-destroy-drop": 20, "fault.fired.iter-borrow-closure": 10,
+            "fault.iter_destroy.closure": 10, "fault.iter_destroy.drop": 5, "overflow.panic.arch": 50, "overflow.panic.in_iter_destroy": 5, "create_at_limit_panicked": 2},
+    rule="a countdown injector panics at the k-th callback of a chosen kind inside a gecs operation: closure call k of ecs_find!/ecs_find_borrow! (reading and writing), of ecs_iter!/ecs_iter_borrow!/ecs_iter_destroy! over one archetype and over cross-archetype queries, Clone::clone number k during world.clone(), Drop::drop number k during world drop, during dynamic-key destroy and during ecs_iter_destroy!'s internal drop, with k uniform over what the instance admits; plus the documented panics: archetype/slot version overflow in destroy and ecs_iter_destroy! (hook H2), 'capacity overflow' and 'capacity may not exceed' at 2^24 (real, no hook). The panic is caught; the entity under operation must be fully present or fully absent; then invariants (H1), the full probe suite, iteration, registry (no double drop, no drop of garbage) run immediately and during >= dozens of further random operations and at world drop. Leak detection is off here (a panic may leak). distinct_nontrivial = distinct fault points (operation x callback kind x k x target) in the largest single process",
+    nontrivial_key="fault_points", assumptions=COMMON_ASSUME + ["a second panic during unwinding (abort by language rule) and allocation failure (abort) are out of scope"],
+    design_ref="DESIGN.md section 4, C10"))
+
+
+def plan_c11(tier, seed):
+    jobs = []
+    r = 50 if tier == "quick" else 2000
+    for cfg, n, rr in ((Config("dbg"), 4, r), (Config("rel"), 4, r), (Config("miri-dbg"), 12, 1), (Config("miri-rel"), 12, 1), (Config("asan"), 2, r)):
+        if tier == "thorough" and cfg.tool.startswith("miri"):
+            n, rr = 16, 8
+        jobs += shards(cfg, "borrow", "small", n, rr, seed, nshards_arg=True, timeout=3000)
+    jobs += history_plan("faults", tier, seed + 7, leaks=False, scale=0.25, tools=("dbg", "rel"), worlds=("small",))
+    return jobs
+
+
+reg(Prop(
+    "C11", "exploration", plan_c11,
+    accept=["C11"],
+    floors={"judged.conflict": 2000, "judged.compatible": 30000, "conflict.panicked_as_required": 2000, "boom.unwound_through_borrow": 100, "nests": 20000},
+    rule="exhaustive depth-2 matrix: outer x inner over 65 accesses {ecs_find_borrow!, Borrow::component(_mut) (archetype and world level)} x {shared, mutable} x {2 archetypes} x {2 columns} x {entity 0, entity 1, stale handle}, {ecs_iter_borrow!, borrow_slice(_mut)} x {shared, mutable} x archetypes x columns, and world.clone(), in three world states (both populated, either archetype empty) = 12675 pairs, plus injected panics unwinding through one and two held borrows and random depth 3-5 nestings. A shadow of RefCell's reader/writer rule per (archetype, column) decides for every inner access: conflict => must panic with a borrow error, compatible => must be granted and see the model's values; after each nest every column must accept borrow_slice_mut again. Miri's aliasing model is the independent second opinion on the same matrix. distinct_nontrivial = depth-2 pairs enumerated (exact: processes enumerate disjoint cases; repeated per tool)",
+    nontrivial_key="depth2_pairs", assumptions=COMMON_ASSUME, design_ref="DESIGN.md section 4, C11", distinct_merge="sum"))
+
+
+def plan_c12(tier, seed):
+    jobs = history_plan("capacity", tier, seed)
+    for mode in (0, 1, 2):
+        jobs.append(Job(Config("rel"), ["bigcap", f"mode={mode}"], timeout=1200))
+    jobs.append(Job(Config("dbg"), ["bigcap", "mode=2"], timeout=1200))
+    jobs.append(Job(Config("asan"), ["bigcap", "mode=0"], timeout=1200))
+    return jobs
+
+
+reg(Prop(
+    "C12", "exploration", plan_c12,
+    accept=["C12"],
+    floors={"refill_cycles": 200, "alloc_windows_checked": 10000, "within_capacity_refused": 200, "growth_steps": 100, "growth_after_churn": 20,
+            "create_at_limit_panicked": 4, "with_capacity_over_limit_panicked": 4, "drain_refill.evens": 5, "drain_refill.prefix": 5, "drain_refill.suffix": 5, "drain_refill.random": 5, "drain_refill.all": 5},
+    rule=HIST + "len/is_empty/capacity are compared with the model after every step; a counting global allocator asserts zero allocator calls inside every create below capacity and every create_within_capacity; drain patterns (evens, prefix, suffix, random subset, all) are followed by a refill to exactly capacity() that must succeed without growth and then be refused, with the argument handed back intact; the free list is walked via H1 (exactly capacity-len distinct free positions, no cycle); real runs to 2^24 entities from initial capacity 2^24, 2^24-1 and 0 check the limit panics and that nothing is corrupted. evaluations = history steps + 2^24-scale creations; " + STATES,
+    nontrivial_key="storage_states", assumptions=COMMON_ASSUME, design_ref="DESIGN.md section 4, C12"))
+
+reg(Prop(
+    "C13", "exploration",
+    lambda tier, seed: history_plan("clone", tier, seed),
+    accept=["C13"],
+    floors={"clones_made": 500, "clone.src_state.cap0": 5, "clone.src_state.empty": 5, "clone.src_state.full": 5, "clone.src_state.partial-after-churn": 50, "refill_cycles": 50},
+    rule=HIST + "worlds are cloned at arbitrary points (up to 4 alive): right after clone() the raw bookkeeping dumps (H1), pending events and every probe (all lookup paths for live, stale and direct handles; iteration) must agree between clone and source, each live component cloned exactly once; then both diverge under independent random histories with full probes of both, including drain/refill-to-capacity on clones; any violation in a world of a clone lineage is attributed to C13. evaluations = history steps; " + STATES,
+    nontrivial_key="storage_states", assumptions=COMMON_ASSUME, design_ref="DESIGN.md section 4, C13"))
+
+
+def plan_c14(tier, seed):
+    k = 1 if tier == "quick" else 20
+    jobs = shards(Config("dbg"), "convert", "main", 8, 60000 * k, seed, timeout=3000)
+    jobs += shards(Config("rel"), "convert", "main", 8, 200000 * k, seed + 1, timeout=3000)
+    jobs += shards(Config("asan"), "convert", "main", 2, 30000 * k, seed + 2, timeout=3000)
+    jobs += shards(Config("miri-dbg"), "convert", "main", 2, 40, seed + 3, timeout=3000)
+    jobs += shards(Config("miri-rel"), "convert", "main", 2, 40, seed + 4, timeout=3000)
+    jobs += history_plan("churn", tier, seed + 5, scale=0.3, tools=("dbg", "rel"))
+    return jobs
+
+
+reg(Prop(
+    "C14", "exploration", plan_c14,
+    accept=["C14"],
+    floors={"typed_conversions": 1000000, "select_archetype_ids_checked": 256, "eq_pairs": 100000, "direct_handles_checked": 60, "handles_issued": 10000},
+    rule="pure-function assertions over raw (key, generation) pairs: the cross product of boundary positions {0,1,2,255,256,2^24-2,2^24-1} x all 256 id bytes x generations {0,1,2,2^31,u32::MAX-1,u32::MAX} (exhaustive over ids), plus seeded random pairs: from_raw is Err iff generation 0; raw round trip; archetype_id == low byte; for every declared archetype try_from is Ok iff the id matches and round-trips, from_any panics iff mismatch, reference conversions preserve the value; SelectArchetype::try_from over all 256 ids, SelectEntity/SelectEntityDirect map each declared id to its own variant; == iff raw bits equal, equal => equal hashes, HashSet sizes; direct handles minted by real worlds; every handle created in churn histories carries its creator's ARCHETYPE_ID. Miri runs a reduced set (reference transmutes). distinct_nontrivial = boundary values enumerated per process (identical in every process)",
+    nontrivial_key="boundary_values", assumptions=COMMON_ASSUME, design_ref="DESIGN.md section 4, C14"))
+
+reg(Prop(
+    "C17", "exploration",
+    lambda tier, seed: history_plan("events", tier, seed, features=("events",)),
+    accept=["C17"],
+    floors={"events.checks": 5000, "events.size_hints_checked": 50000, "op.clear_events.world": 20, "op.clear_events.archetype": 50, "iter_destroy.destroyed": 100, "clones_made": 20},
+    rule=HIST + "built with the events feature: after every step each archetype's iter_created / iter_destroyed is compared (as multisets) with the handles the model saw created / destroyed since the last clear, through both create paths, all four destroy key kinds at both levels and ecs_iter_destroy!; the world-level iterators are stepped one next() at a time with size_hint checked at every position (and after exhaustion) and must yield exactly the union; clears at archetype and world level at random points; clones must carry pending events. distinct_nontrivial = distinct per-archetype (created-log empty?, destroyed-log empty?) patterns seen by the world iterator check in the largest single process",
+    nontrivial_key="event_log_emptiness_patterns", assumptions=COMMON_ASSUME, design_ref="DESIGN.md section 4, C17"))
